@@ -1,6 +1,7 @@
 package bitcoin_reader
 
 import (
+	"time"
 	"fmt"
 
 	"github.com/tokenized/pkg/bitcoin"
@@ -285,6 +286,11 @@ func init() {
 func VerifC14Sequence() {
 	count := verifParam("messages", 2)
 	e := newNetEnv(nondetBool("with-tx-manager"))
+	// with "gap" the request timeout of the tx manager may pass between two messages
+	gap := verifParam("gap", 0) == 1
+	if gap && e.txm != nil {
+		e.txm.requestTimeout.Store(50 * time.Millisecond)
+	}
 	e.makeReady()
 	var stream []byte
 	var ends []int
@@ -300,6 +306,10 @@ func VerifC14Sequence() {
 	stream = append(stream, frameMsg(wire.CmdPing, encodeMsg(wire.NewMsgPing(nonce)), false)...)
 	e.conn.in = stream
 	for k := 0; k < count; k++ {
+		if gap && k > 0 && nondetBool("request-timeout-passes") {
+			verifAdvanceClock(int64(60 * time.Millisecond))
+			verifReach("time-passed")
+		}
 		err := e.node.handleMessage(e.ctx, e.conn)
 		verifObserve("message", k, cmds[k], err == nil, e.conn.pos, ends[k])
 		if err != nil || e.conn.closed {
